@@ -90,6 +90,12 @@ func c13(args []string) int {
 	add("callback-arg-size", "F2 pos0", "F2", "", func(b *mocker.Builder) { b.Func(fnzoo.F2).Apply(func(s int, n int) int { return 1 }) })
 	add("callback-arg-size", "F2 pos1", "F2", "", func(b *mocker.Builder) { b.Func(fnzoo.F2).Apply(func(s string, n int8) int { return 1 }) })
 	add("callback-arg-size", "T.M pos1", "T.M", "", func(b *mocker.Builder) { b.Struct(&fnzoo.T{}).Method("M").Apply(func(t *fnzoo.T, a [2]int) int { return 1 }) })
+	// variadic targets: the variadic slot is a slice header (24 bytes) and must be compared like every other slot
+	add("callback-arg-size", "FV last string", "FV", "", func(b *mocker.Builder) { b.Func(fnzoo.FV).Apply(func(a int, s string) int { return 1 }) })
+	add("callback-arg-size", "FV last int", "FV", "", func(b *mocker.Builder) { b.Func(fnzoo.FV).Apply(func(a int, s int) int { return 1 }) })
+	add("callback-arg-size", "FV pos0 int8", "FV", "", func(b *mocker.Builder) { b.Func(fnzoo.FV).Apply(func(a int8, s ...string) int { return 1 }) })
+	add("callback-arg-count", "FV only fixed", "FV", "", func(b *mocker.Builder) { b.Func(fnzoo.FV).Apply(func(a int) int { return 1 }) })
+	add("callback-arg-size", "T.MV last int", "T.M", "", func(b *mocker.Builder) { b.Struct(&fnzoo.T{}).Method("MV").Apply(func(t *fnzoo.T, a int, r int) int { return 1 }) })
 	add("callback-result-size", "F1 int16", "F1", "", func(b *mocker.Builder) { b.Func(fnzoo.F1).Apply(func(a int) int16 { return 1 }) })
 	add("callback-result-size", "F2R pos1", "F2R", "", func(b *mocker.Builder) { b.Func(fnzoo.F2R).Apply(func(a int) (int, int) { return 1, 2 }) })
 	add("callback-result-size", "F2R pos0", "F2R", "", func(b *mocker.Builder) { b.Func(fnzoo.F2R).Apply(func(a int) (string, string) { return "", "" }) })
